@@ -8,8 +8,10 @@ namespace Pops
 
 /-- The mortality action (apply, then age) from a consistent cell: cohort 0 dies completely,
     cohorts 1..|mort|-lag-1 lose floor(rate x size), cohorts within the lag lose nothing; the dead
-    are added to `died` and subtracted from infected and total hosts; then all cohorts age. -/
-theorem C11_who_dies (c : Cell) (rate : Rat) (lag : Int) (hr0 : 0 ≤ rate) (hr1 : rate ≤ 1) (hl : 0 ≤ lag)
+    are added to `died` and subtracted from infected and total hosts; then all cohorts age.
+    The documented domain of the rate is [0,1]; the statement also covers a negative rate, for
+    which the code (`if (mortality_rate <= 0) return;`) and the model let nobody die. -/
+theorem C11_who_dies (c : Cell) (rate : Rat) (lag : Int) (hr1 : rate ≤ 1) (hl : 0 ≤ lag)
     (hn : c.nonNeg = true) (ht : c.totalsOK = true) (hm : c.mortOK = true) :
     ∃ c', (CellOp.mortality rate lag).apply c = .ok c' ∧ mortalitySpec rate lag c c' = true := by
   exact mech_C11_who_dies c rate lag hr1 hl hn ht hm
@@ -32,10 +34,11 @@ def mortalityRun (rate : Rat) (lag : Int) : List Int → Cell → Except ErrKind
 
 /-- With a positive rate every host infected before the run is dead after tracker-length
     mortality steps, whatever new infection arrives in between: what is left in the cohorts is at
-    most the newly infected, and at least the originally infected have died. -/
+    most the newly infected, and at least the originally infected have died. (The derived totals
+    need not be consistent: `totalsOK` is not a hypothesis; the run is assumed not to throw.) -/
 theorem C11_eventual_death (c c' : Cell) (rate : Rat) (lag : Int) (adds : List Int)
     (hr0 : 0 < rate) (hr1 : rate ≤ 1) (hl0 : 0 ≤ lag) (hl : lag < c.mort.length)
-    (hn : c.nonNeg = true) (ht : c.totalsOK = true) (hm : c.mortOK = true)
+    (hn : c.nonNeg = true) (hm : c.mortOK = true)
     (hadds : ∀ a ∈ adds, 0 ≤ a) (hlen : adds.length = c.mort.length)
     (h : mortalityRun rate lag adds c = .ok c') :
     sumL c'.mort ≤ sumL adds ∧ c.i ≤ c'.died - c.died := by
